@@ -18,6 +18,7 @@ import (
 	"io/ioutil"
 	"os"
 	"path/filepath"
+	"runtime/pprof"
 	"sort"
 	"sync/atomic"
 	"syscall"
@@ -238,6 +239,7 @@ func workerMain() {
 		fmt.Fprintf(workerOut, "R %s\n", b)
 		workerOut.Flush()
 	}
+	pprof.StopCPUProfile()
 	os.Exit(0)
 }
 
@@ -465,7 +467,7 @@ func runHistory(alpha string, hist []int, c *collector) {
 		end = Lc.recs[n-1].end
 	}
 	Lc.torn = len(cstream) - end
-	d := damage{class: "crash-cut", p: len(Lc.recs), none: Lc.torn == 0, desc: fmt.Sprintf("head buffer (%d bytes) lost; %d complete records and %d further bytes on disk", buffered, len(Lc.recs), Lc.torn)}
+	d := damage{class: "crash-cut", p: len(Lc.recs), none: Lc.torn == 0, cut: true, desc: fmt.Sprintf("head buffer (%d bytes) lost; %d complete records and %d further bytes on disk", buffered, len(Lc.recs), Lc.torn)}
 	if d.none {
 		d.class = "crash-cut:at-record-boundary"
 	}
@@ -676,7 +678,7 @@ func runImage(u unit, c *collector) {
 				cl = "truncation:rotated-file"
 			}
 			desc := fmt.Sprintf("file %s cut to %d of %d bytes", names[k], off, len(orig))
-			d := damage{class: cl, p: L.intactBefore(so), midGroup: !last, desc: desc}
+			d := damage{class: cl, p: L.intactBefore(so), midGroup: !last, cut: last, desc: desc}
 			vs := evalImage(w2, L, d, dh, c.st)
 			if len(vs) > 0 {
 				c.add(vs, base+ord, replay(desc))
